@@ -1932,6 +1932,39 @@ def _exp(L, x):
     return _ufunc(L, x, EXP, math.exp)
 
 
+@model('numpy.expm1')
+def _expm1(L, x):
+    """exp(x) - 1 (model R: the better conditioning of expm1 is a float matter)"""
+    if isinstance(x, Arr):
+        return L.lift1(lambda e: _expm1(L, e), x, 'float64' if x.dtype not in FLOAT_DT else x.dtype)
+    return EXP(to_real(x) if is_sym(x) else to_real(rv(x))) - 1
+
+
+@model('numpy.log1p')
+def _log1p(L, x):
+    if isinstance(x, Arr):
+        return L.lift1(lambda e: _log1p(L, e), x, 'float64' if x.dtype not in FLOAT_DT else x.dtype)
+    return LOG(1 + (to_real(x) if is_sym(x) else to_real(rv(x))))
+
+
+@model('numpy.mean')
+def _np_mean(L, a, axis=None, **kw):
+    a = L.as_arr(a)
+    if axis is not None or kw:
+        raise Unsupported('mean with axis/options')
+    n = 1
+    for d in a.shape:
+        n = simp(to_z3(n) * to_z3(d)) if (is_sym(n) or is_sym(d)) else n * d
+    tot = _np_sum(L, a)
+    # numpy: mean of an empty array is nan (+ warning); model R: unspecified quotient
+    return to_real(tot) / z3.ToReal(to_z3(n)) if is_sym(n) else (to_real(tot) / rv(float(n)) if n else L._unspec_div(tot))
+
+
+@method('Arr', 'mean')
+def _m_mean(L, a, axis=None, **kw):
+    return _np_mean(L, a, axis=axis, **kw)
+
+
 @model('numpy.sqrt')
 def _sqrt(L, x):
     return _ufunc(L, x, SQRT, math.sqrt)
@@ -1972,6 +2005,7 @@ def _nonzero(L, a):
     mask = Arr(a.shape, lambda ix: L.I.S.truth(f(ix)) if not isinstance(f(ix), (int, float)) else bool(f(ix)), 'bool')
     idx = Arr(a.shape, lambda ix: ix[0], 'int64')
     r = L.mask_select(idx, mask)
+    r.ghost['index_selection'] = True       # positions of the True entries: distinct, ascending
     return (r,)
 
 
